@@ -21,6 +21,7 @@ import (
 	"path/filepath"
 	"sort"
 	"strings"
+	"time"
 
 	"github.com/basekick-labs/arc/internal/api"
 	"github.com/basekick-labs/arc/internal/config"
@@ -36,8 +37,11 @@ type row struct {
 }
 
 type dataset struct {
-	Rows    []row            `json:"rows"`
-	Layouts map[string][]int `json:"layouts"`
+	Rows     []row            `json:"rows"`
+	Layouts  map[string][]int `json:"layouts"`
+	Times    map[string][]int `json:"times"`     // layout -> seconds after the base timestamp, per row
+	PartDirs []string         `json:"part_dirs"` // partition directory of file 1..3
+	FileName string           `json:"file_name"` // the one base name every file carries
 }
 
 type pcase struct {
@@ -136,6 +140,8 @@ func lit(c string, code int) string {
 		return "'" + []string{"", "a", "ab", "b"}[code] + "'"
 	case "f":
 		return []string{"", "0.5", "1.5"}[code]
+	case "t":
+		return "'" + time.Unix(1704067200+int64(code), 0).UTC().Format("2006-01-02 15:04:05") + "'"
 	}
 	panic("column " + c)
 }
@@ -152,7 +158,11 @@ func render(p *pred, top bool) string {
 	case "const":
 		return p.Form
 	case "cmp":
-		return fmt.Sprintf("%s %s %s", p.C, p.Op, lit(p.C, p.Lit))
+		col := p.C
+		if col == "t" {
+			col = "time"
+		}
+		return fmt.Sprintf("%s %s %s", col, p.Op, lit(p.C, p.Lit))
 	case "null":
 		if p.Neg {
 			return p.C + " IS NOT NULL"
@@ -189,8 +199,8 @@ const selectList = "epoch_us(time)::VARCHAR, v::VARCHAR, s, f::VARCHAR, typeof(t
 const types = "TIMESTAMP,BIGINT,VARCHAR,DOUBLE"
 
 // tuple is the read-back form of a row (what selectList returns)
-func tuple(r row) string {
-	us := int64(1704067200)*1000000 + int64(r.T)*1000000
+func tuple(r row, secs int) string {
+	us := int64(1704067200)*1000000 + int64(secs)*1000000
 	s := func(c string, code int) string {
 		if code == 0 {
 			return "~"
@@ -200,8 +210,8 @@ func tuple(r row) string {
 	return strings.Join([]string{fmt.Sprint(us), s("v", r.V), s("s", r.S), s("f", r.F), types}, "|")
 }
 
-func values(r row) string {
-	return fmt.Sprintf("(%d, %s, %s, %s)", r.T, lit("v", r.V), lit("s", r.S), lit("f", r.F))
+func values(r row, secs int) string {
+	return fmt.Sprintf("(%d, %s, %s, %s)", secs, lit("v", r.V), lit("s", r.S), lit("f", r.F))
 }
 
 type handlerEnv struct {
@@ -345,9 +355,19 @@ func main() {
 	h := &handlerEnv{env: env, app: app}
 
 	rows := inp.Dataset.Rows
-	tuples := make([]string, len(rows))
-	for i, r := range rows {
-		tuples[i] = tuple(r)
+	if len(inp.Dataset.PartDirs) != 3 || inp.Dataset.FileName == "" {
+		fail("dataset without partition directories / file name")
+	}
+	tuplesOf := map[string][]string{}
+	for lay, ts := range inp.Dataset.Times {
+		if len(ts) != len(rows) {
+			fail("times of layout " + lay + " have the wrong length")
+		}
+		tu := make([]string, len(rows))
+		for i, r := range rows {
+			tu[i] = tuple(r, ts[i])
+		}
+		tuplesOf[lay] = tu
 	}
 	// templates: one directory per layout with f1..f3.parquet
 	tplFiles := map[string]map[int][]int{} // layout -> file -> row indexes (0-based)
@@ -363,7 +383,7 @@ func main() {
 		for f, idx := range byFile {
 			var vals []string
 			for _, i := range idx {
-				vals = append(vals, values(rows[i]))
+				vals = append(vals, values(rows[i], inp.Dataset.Times[lay][i]))
 			}
 			abs := filepath.Join(env.Root, "_tpl", lay, fmt.Sprintf("f%d.parquet", f))
 			sel := baseTS + " + to_seconds(t) AS time, CAST(v AS BIGINT) AS v, CAST(s AS VARCHAR) AS s, CAST(f AS DOUBLE) AS f"
@@ -381,14 +401,18 @@ func main() {
 		}
 		meas := fmt.Sprintf("m%d", ci)
 		rel := filepath.Join(db, meas)
-		part := filepath.Join(rel, "2024", "01", "01", "00")
+		tuples := tuplesOf[c.Lay]
+		if tuples == nil {
+			fail("no times for layout " + c.Lay)
+		}
 		byFile := tplFiles[c.Lay]
 		if byFile == nil {
 			fail("unknown layout " + c.Lay)
 		}
-		fname := func(f int) string { return filepath.Join("2024", "01", "01", "00", fmt.Sprintf("f%d.parquet", f)) }
+		// every file carries the same base name, in its own partition directory
+		fname := func(f int) string { return filepath.Join(inp.Dataset.PartDirs[f-1], inp.Dataset.FileName) }
 		for f := range byFile {
-			if err := kit.CopyFile(filepath.Join(env.Root, "_tpl", c.Lay, fmt.Sprintf("f%d.parquet", f)), filepath.Join(env.Root, part, fmt.Sprintf("f%d.parquet", f))); err != nil {
+			if err := kit.CopyFile(filepath.Join(env.Root, "_tpl", c.Lay, fmt.Sprintf("f%d.parquet", f)), filepath.Join(env.Root, rel, fname(f))); err != nil {
 				fail("copy: " + err.Error())
 			}
 		}
@@ -533,12 +557,12 @@ func main() {
 		}
 		st2, conf, err := h.post(db, meas, where, false, true)
 		res.Requests++
-		if err != nil || st2 != 200 || !conf.Success {
-			if len(res.Errors) < 10 {
-				res.Errors = append(res.Errors, fmt.Sprintf("confirmed delete %q: status %d err %v resp %+v", where, st2, err, conf))
-			}
-			os.RemoveAll(filepath.Join(env.Root, rel))
-			continue
+		if err != nil || conf == nil {
+			fail(fmt.Sprintf("confirmed delete %q: status %d err %v", where, st2, err))
+		}
+		failed := st2 != 200 || !conf.Success
+		if failed && len(res.Errors) < 10 {
+			res.Errors = append(res.Errors, fmt.Sprintf("confirmed delete %q: status %d resp %+v", where, st2, conf))
 		}
 		after, _, err := readMeasurement(env, rel, "")
 		if err != nil {
@@ -610,6 +634,9 @@ func main() {
 					onlyNullInAffected = false
 				}
 			}
+			if failed {
+				extra = nil // a delete that reported failure may leave selected rows behind; rows that had to stay are still judged
+			}
 			for _, t := range extra {
 				extraAll = append(extraAll, f+": "+t)
 				onlyNullInAffected = false
@@ -623,6 +650,14 @@ func main() {
 		sort.Strings(missingAll)
 		sort.Strings(extraAll)
 		w.Missing, w.Surviving = missingAll, extraAll
+		if failed {
+			w.Note = fmt.Sprintf("the confirmed delete answered status %d success=%v (%s): only rows that had to stay are judged", st2, conf.Success, conf.Error)
+			for s := range sigs {
+				res.add(&res.viol, s, w)
+			}
+			os.RemoveAll(filepath.Join(env.Root, rel))
+			continue
+		}
 		if conf.DeletedCount != int64(nBefore-nAfter) {
 			sigs["deleted-count-differs-from-rows-disappeared"] = true
 		}
